@@ -174,3 +174,32 @@ package font
 //@     step malformed_triple_adds_nothing: let a = hexStrings[prev(i)] in let b = hexStrings[prev(i)+1] in let c = hexStrings[prev(i)+2] in !(len(a) > 0 && len(b) > 0 && len(c) > 0 && !parseHexToUint32$1(a) && !parseHexToUint32$1(b) && !parseHexToUint32$1(c)) ==> len(cm.rangeMappings) == prev(len(cm.rangeMappings))
 //@     step earlier_ranges_kept: forall k int :: {cm.rangeMappings[k]} 0 <= k && k < prev(len(cm.rangeMappings)) ==> cm.rangeMappings[k] == prev(cm.rangeMappings)[k]
 //@     decreases len(hexStrings) - i
+
+// bfrange with array targets: an entry is joined with following lines only while its closing bracket has not been
+// seen; one array parse per entry; simple triples on other lines as in parseBfRangeSection.
+//@ func (*CMap) parseBfRangeSectionWithArrays results (err)
+//@   property C07, C02
+//@   flags nosafety
+//@   loop 0:
+//@     invariant 0 <= i
+//@     decreases len(lines) - i
+//@   loop 1:
+//@     invariant 0 <= i && i < len(lines) && i >= entry(i)
+//@     step joins_only_while_the_array_is_open: !strings.Contains(prev(fullLine), "]") && i == prev(i) + 1
+//@     decreases len(lines) - i
+//@   loop 2:
+//@     invariant 0 <= startIdx && startIdx <= len(line)
+//@     decreases len(line) - startIdx
+//@   loop 3:
+//@     invariant 0 <= j && mod(j, 3) == 0
+//@     step triple_appends_one_range: let a = hexStrings[prev(j)] in let b = hexStrings[prev(j)+1] in let c = hexStrings[prev(j)+2] in len(a) > 0 && len(b) > 0 && len(c) > 0 && !parseHexToUint32$1(a) && !parseHexToUint32$1(b) && !parseHexToUint32$1(c) ==> len(cm.rangeMappings) == prev(len(cm.rangeMappings)) + 1 && cm.rangeMappings[prev(len(cm.rangeMappings))].StartCode == parseHexToUint32(a) && cm.rangeMappings[prev(len(cm.rangeMappings))].EndCode == parseHexToUint32(b) && cm.rangeMappings[prev(len(cm.rangeMappings))].StartUnicode == parseHexToUint32(c)
+//@     decreases len(hexStrings) - j
+
+// <first> <last> [ t0 t1 ... ]: the k-th non-empty target maps code first+k, as long as that code is <= last
+//@ func (*CMap) parseBfRangeArray
+//@   property C07
+//@   flags nosafety
+//@   loop 2:
+//@     step next_code: currentCode == (len(hex) == 0 ? prev(currentCode) : uint32(prev(currentCode) + 1))
+//@     step target_maps_current_code: len(hex) > 0 && !hexToUnicode$1(hex) && prev(currentCode) <= endCode ==> has(cm.charMappings, prev(currentCode)) && sameseq(cm.charMappings[prev(currentCode)], hexToUnicode(hex))
+//@     step other_codes_untouched: forall k uint32 :: {cm.charMappings[k]} k != prev(currentCode) ==> has(cm.charMappings, k) == has(prev(cm.charMappings), k) && (has(cm.charMappings, k) ==> cm.charMappings[k] == prev(cm.charMappings)[k])
